@@ -202,6 +202,7 @@ func (intp *Interpreter) executeOne(obj Object, execProc bool) error {
 		intp.execStackDepth++
 		defer func() { intp.execStackDepth-- }()
 	}
+	counted := execProc
 
 	if len(intp.Stack) > maxOperandStackDepth {
 		return intp.e(eStackoverflow, "operand stack overflow")
@@ -245,6 +246,15 @@ recurseTail:
 			return err
 		}
 		obj = val
+		if _, isProc := val.(Procedure); isProc && !counted {
+			// running a procedure through its name nests execution as well
+			if intp.execStackDepth >= 100 {
+				return intp.e(eExecstackoverflow, "exec stack overflow")
+			}
+			intp.execStackDepth++
+			defer func() { intp.execStackDepth-- }()
+			counted = true
+		}
 		execProc = true
 		goto recurseTail
 
